@@ -32,5 +32,6 @@ func steps() int64         { return stepCount }
 func stepBudgetHit() bool  { return budgetHit }
 
 func setYieldHook(f func(string)) bool { formula.VerifYieldHook = f; return true }
-func globalsDump() string               { return formula.VerifGlobals() }
-func disableStepHook() { formula.VerifStepHook = nil }
+func setBlockHook(f func())            { formula.VerifBlockHook = f }
+func globalsDump() string              { return formula.VerifGlobals() }
+func disableStepHook()                 { formula.VerifStepHook = nil }
